@@ -117,6 +117,20 @@ def specC01 (reqs : List Req) (tr : ITrace) : Bool :=
   * a request that RETURNED while `a` was in progress was not carried out: none of its own hooks or body
     ran and it reports the state it found; `a` is then judged on the state before the pair;
   * otherwise (`b` queued) the two are judged one after the other, `b` on the state `a` left.
+
+  A pair may keep `a` in its TASK PHASE for a while — `(P a b holdMs)`: the command `a` sent to the tasks stays
+  unanswered — and take a second sighting before the answer comes (`IEv.held first second st`). While the
+  command is unanswered the transition is in progress, however long the tasks take and whatever the
+  environment was configured with:
+
+  * `a` has not returned to its caller (`first = inside`): a caller that is told "failed" goes on — the
+    API glue with GO_ERROR — as if the transition were over;
+  * `b` has not got into its critical section (`second ≠ inside`) — if it has returned meanwhile it is judged
+    as above (inert);
+  * the state is still the one `a` found (`st = st0`);
+  * and no command of a transition body ever reaches the tasks while an earlier one of the same environment
+    is unanswered (`IEv.bodyOverlap`, anywhere in a trace): at most one task phase at a time
+    (`C01_task_phases_never_overlap`, `C01_task_phase_is_synchronous_is_code`).
 -/
 
 def overlapOf (seg : List IEv) : Option (String × String × String) :=
@@ -129,6 +143,25 @@ def afterOverlap (seg : List IEv) : List IEv := (seg.dropWhile (fun e => !e.isOv
 
 /-- the part of a segment recorded before the overlap record -/
 def beforeOverlap (seg : List IEv) : List IEv := seg.takeWhile (fun e => !e.isOverlap)
+
+/-- the second sightings of a segment are those of a first request still in its task phase, a second one
+    that is not being carried out, and a state that has not moved since the pair was issued -/
+def heldOk (seg : List IEv) (st0 : String) : Bool :=
+  seg.all fun
+    | .held first second st => first == "inside" && second != "inside" && st == st0
+    | _ => true
+
+/-- the second request was seen to have returned at the second sighting -/
+def heldReturned (seg : List IEv) : Bool :=
+  seg.any fun
+    | .held _ second _ => second == "returned"
+    | _ => false
+
+/-- no second command in flight, anywhere -/
+def noBodyOverlap (tr : ITrace) : Bool :=
+  tr.all fun
+    | .bodyOverlap .. => false
+    | _ => true
 
 /-- a request that was not carried out: nothing of its own ran and the state it reports is the one it found -/
 def ReqObs.inert (o : ReqObs) : Bool := !o.ranOwnHooksOrBody && o.after == o.before
@@ -143,8 +176,8 @@ def specPSegs : List PReq → St → List (List IEv) → Bool
     (match overlapOf seg1 with
      | some (how, st0, st1) =>
        -- nothing is carried out while `a` is inside its critical section
-       st1 == st0 &&
-       (if how == "returned" then
+       st1 == st0 && heldOk seg1 st0 &&
+       (if how == "returned" || heldReturned seg1 then
           -- `b` returned while `a` was in progress: seg1 ends with b's record, a's is the next
           match obsOf b s (afterOverlap seg1), obsOf a s (beforeOverlap seg1 ++ seg2) with
           | some ob, some oa => ob.inert && reqOk ob && reqOk oa && specPSegs qs oa.after segs
@@ -176,6 +209,6 @@ def PReq.allInScope : PReq → Bool
     "ControlEnvironment does not force ERROR on an environment that is DONE" the graph clause is proved
     for every list (`C01_graph_par_code`), so a DONE → ERROR report is a plain violation. -/
 def specC01P (preqs : List PReq) (tr : ITrace) : Bool × String :=
-  (!preqs.all PReq.allInScope || specPSegs preqs .STANDBY (segments tr []), "-")
+  (!preqs.all PReq.allInScope || (noBodyOverlap tr && specPSegs preqs .STANDBY (segments tr [])), "-")
 
 end EnvM
